@@ -276,8 +276,11 @@ impl<'t, 'a> G<'t, 'a> {
     }
 
     fn fresh(&mut self) -> String {
+        // names are unique but deliberately NOT in alphabetical order of
+        // appearance (a `<>` expanded in sorted-name order must be visible)
         self.var += 1;
-        format!("v{}", self.var)
+        let letter = *self.t.pick(&["v", "a", "z", "m", "b", "y", "k"]);
+        format!("{}{}", letter, self.var)
     }
 
     /// the raw symbol list of an alternative of nonterminal `ni`
@@ -1661,7 +1664,8 @@ pub fn gen_inline_focus(t: &mut Tape) -> GSpec {
             if !syms.is_empty() && t.chance(90) {
                 for s in syms.iter_mut() {
                     var += 1;
-                    s.bind = Bind::Name(format!("v{var}"), false);
+                    let letter = *t.pick(&["v", "a", "z", "m", "b"]);
+                    s.bind = Bind::Name(format!("{letter}{var}"), false);
                 }
                 style = if t.chance(128) { Style::Names } else { Style::Angle };
             }
@@ -1687,7 +1691,8 @@ pub fn gen_inline_focus(t: &mut Tape) -> GSpec {
             for s in syms.iter_mut() {
                 if t.chance(200) {
                     var += 1;
-                    s.bind = Bind::Name(format!("v{var}"), false);
+                    let letter = *t.pick(&["v", "a", "z", "m", "b"]);
+                    s.bind = Bind::Name(format!("{letter}{var}"), false);
                 }
             }
             if !syms.iter().any(|s| matches!(s.bind, Bind::Name(..))) {
